@@ -96,9 +96,45 @@ func genC12(c *lp.Ctx) {
 		}
 		bs := 1 + c.Rng.Intn(64)
 		left := 0
+		if it%8 >= 6 && len(ks.Keys) > 0 {
+			// magnitudes of the offsets themselves: every offset 0 (one record, or one block, at the start of the
+			// file), offsets around 2^31 / 2^32, the largest int64
+			switch c.Rng.Intn(4) {
+			case 0:
+				off = 0
+				if block {
+					left = len(ks.Keys) + 1 // one block holding every key, at offset 0
+				} else {
+					ks.Keys = ks.Keys[:1]
+					recs = recs[:1]
+					left = 2
+				}
+				c.Hit("offsets:all-zero")
+			case 1:
+				off = 1<<31 - 3
+				c.Hit("offsets:around-2^31")
+			case 2:
+				off = 1<<32 - 3
+				c.Hit("offsets:around-2^32")
+			default:
+				off = 1<<63 - 1 - int64(len(ks.Keys))*3
+				bs = 1
+				c.Hit("offsets:near-max-int64")
+			}
+		}
+		zeroStart := left > 0
 		for i, k := range ks.Keys {
+			if zeroStart {
+				left--
+				recs[i] = rec{key: k, off: off, val: fmt.Sprintf("v%d", i)}
+				continue
+			}
 			if !block || left == 0 {
-				off += 1 + int64(c.Rng.Intn(1<<uint(c.Rng.Intn(40))))
+				if off > 1<<62 {
+					off += 1 + int64(c.Rng.Intn(2))
+				} else {
+					off += 1 + int64(c.Rng.Intn(1<<uint(c.Rng.Intn(40))))
+				}
 				left = 1 + c.Rng.Intn(bs)
 			}
 			left--
